@@ -169,3 +169,58 @@ def check_vu64_decoder(ctx, prog, rule="vu64-reader-consumes-encoded-length"):
         ctx.check(ok, rule, "single-read", "the follow bytes read are not exactly `decoded_len(first) - 1`", where=where(fn, follow[0][0]))
         return
     ctx.fail(rule, "shape-not-recognised", "the reader's byte consumption is neither a match on the follow length nor a single read of `decoded_len(first) - 1` bytes", where=where(fn))
+
+
+def check_skip_helpers(ctx, prog, rule="vu64-reader-consumes-encoded-length"):
+    """The position helpers that step over a record's size field (`seek_skip_to_piece_key` / `_value`, vu64 layout):
+    the number of follow bytes skipped is `decoded_len(first) - 1`, and whether to skip is decided by that same length
+    (`len > 1`, `len - 1 > 0`, ...) or not decided at all - not by some other reading of the first byte that agrees
+    with it for most values only."""
+    from .cursor import skip_to_fns
+    n = 0
+    for fn in skip_to_fns(prog):
+        dl = [(b, t) for b, t in fn.calls() if not fn.is_cleanup(b) and _mname(t) == "decoded_len"]
+        if not dl:
+            continue            # fixed-width layout: nothing depends on the first byte
+        n += 1
+        ctx.touch(fn, len(fn.blocks))
+        cn = k7.Canon(prog, fn)
+        if not ctx.check(len(dl) == 1, rule, "skip:%s:anchor" % fn.name, "%d decoded_len calls in %s" % (len(dl), fn.name), where=where(fn)):
+            continue
+        dlb = dl[0][0]
+        skips = []
+        for b, t in fn.calls():
+            if fn.is_cleanup(b) or b == dlb or not fn.dominates(dlb, b) or len(t.get("args", [])) < 2:
+                continue
+            c = cn.op(t["args"][1], b)
+            if _is_len_minus_1(_strip_new(c), dlb):
+                skips.append((b, t))
+        if not ctx.check(len(skips) == 1, rule, "skip:%s:amount" % fn.name,
+                         "%s does not step over exactly `decoded_len(first) - 1` follow bytes of the size field" % fn.name, where=where(fn)):
+            continue
+        sb = skips[0][0]
+        bad = None
+        for (cb, t_true, t_false, (op, X, Y)) in k7.conditions(prog, fn):
+            if not fn.dominates(cb, sb) or cb == sb or t_true == t_false:
+                continue
+            on_true, on_false = fn.dominates(t_true, sb), fn.dominates(t_false, sb)
+            if on_true == on_false:
+                continue        # the skip does not depend on this test
+            operands = [z for z in (X, Y) if z is not None]
+            ok = all(z[0] == "c" or _is_len(_strip_new(z), dlb) or _is_len_minus_1(_strip_new(z), dlb) for z in operands) and any(z[0] != "c" for z in operands)
+            if not ok:
+                bad = (cb, op, X, Y)
+        ctx.check(bad is None, rule, "skip:%s:decided-by-length" % fn.name,
+                  "%s decides whether to step over the size field's follow bytes by `%s`, not by the decoded length itself: for first bytes where the two disagree "
+                  "every later field of the record is read one position off" % (fn.name, ("%s %s %s" % (k7.expr_str(bad[2]), bad[1], k7.expr_str(bad[3]) if bad[3] else "")) if bad else ""),
+                  where=where(fn, bad[0]) if bad else where(fn))
+    if n == 0:
+        ctx.ok(rule, "skip:not-applicable", "fixed-width size field in this configuration")
+
+
+def _strip_new(c):
+    while c[0] == "call" and len(c[2]) == 1 and c[1].rsplit("::", 1)[-1] in ("into", "from", "new", "as_value", "try_into", "unwrap"):
+        c = c[2][0]
+    if c[0] == "un" and len(c) == 3:
+        return c
+    return c
